@@ -136,6 +136,9 @@ func c20LMSeedBlocks() []c20Blk {
 			if x >= 4 && x < 8 && y >= 4 && y < 8 && z >= 4 && z < 8 {
 				return 4
 			}
+			if x < 2 && y < 2 && z < 2 {
+				return 9 // the first sub-block holds 3 labels: 2 bits per voxel, packed value 3 names no label
+			}
 			if x < 10 {
 				return 1
 			}
